@@ -180,11 +180,23 @@ pub fn scan<V: Vary>(
     // dv/dy for the right edge
     let dr_dy = r0.dv_dt(r1, recip_dy);
 
-    // dv/dx is constant for the whole polygon; precompute it
+    // dv/dx is constant for the whole polygon; precompute it from the wider
+    // of the two bases. (Measuring it one row below `y0` degenerates to 0/0
+    // when the trapezoid is a triangle exactly one row high.)
     let dv_dx = {
-        let (l0, r0) = (l0.step(&dl_dy), r0.step(&dr_dy));
-        let dx = r0.0.x() - l0.0.x();
-        l0.dv_dt(&r0, dx.recip())
+        let dx0 = r0.0.x() - l0.0.x();
+        let dx1 = r1.0.x() - l1.0.x();
+        let (l, r, dx) = if dx0 * dx0 >= dx1 * dx1 {
+            (l0, r0, dx0)
+        } else {
+            (l1, r1, dx1)
+        };
+        // A zero-width polygon has no meaningful dv/dx; use zero, not NaN
+        if dx != 0.0 {
+            l.dv_dt(r, dx.recip())
+        } else {
+            l.dv_dt(l, 0.0)
+        }
     };
 
     // Find the y value of the next pixel center (.5) vertically
